@@ -27,7 +27,7 @@ func (p *c08) Setup(env *fw.Env) error {
 	p.pool = xgoPool(env)
 	p.half = env.Pick(700, 20000)
 	p.N = 2 * p.half
-	p.RuleS = "each package is compiled 5 times in one process with the files presented in sorted, reversed and three shuffled orders, and once more in another worker process (cases i and i+N/2 build the same package; their output hashes are compared by the driver). Packages: generated multi-file packages (2-5 XGo files + optionally a Go file, 6-14 units of types, methods, functions, overloads, operators, vars with cross-file initialisation dependencies, consts, init functions, lambdas spread over the files), class-file projects (Game.tgmx + 1-4 .tspx sprites with generated handlers, + optional .xgo file), repository files/snippets, and error packages (a unit duplicated in two files, undefined references, type errors in several files). Oracle: the bytes written by Package.WriteTo and the error list (order included) are identical in every compilation."
+	p.RuleS = "each package is compiled 5 times in one process with the files presented in sorted, reversed and three shuffled orders, and once more in another worker process (cases i and i+N/2 build the same package; their output hashes are compared by the driver). Packages: generated multi-file packages (2-5 XGo files + optionally a Go file, 6-14 units of types, methods, functions, overloads, operators, vars with cross-file initialisation dependencies, consts, init functions, lambdas spread over the files), class-file projects (Game.tgmx + 1-4 .tspx sprites with generated handlers, + optional .xgo file, + in half of them a second project file App.t2gmx of another class framework), repository files/snippets, and error packages (a unit duplicated in two files, undefined references, type errors in several files). Oracle: the bytes written by Package.WriteTo and the error list (order included) are identical in every compilation."
 	p.Assume = []string{"Go randomises map iteration per range statement, so repetition inside one process exercises map-order dependence; the second process adds a different hash seed"}
 	p.Floor = map[string]int{"#evaluations": p.N * 9 / 10, "#nontrivial": p.half * 8 / 10, "kind:multi-file": p.half / 2, "kind:class-project": p.half / 6, "kind:error-package": p.half / 5, "outcome:ok": p.half / 2, "outcome:errors": p.half / 4, "compilations-compared": p.N * 3, "cross-process-pairs-compared": p.half * 9 / 10, "presentation-orders-distinct": p.half}
 	return nil
